@@ -12,7 +12,7 @@ LEVEL = "exploration"
 RULE = ("E1: ('core', len, zrun, decl, sink, cmac) = full product of every payload length 1..N x trailing-0x00 run "
         "{0,1,2,15,16,17} x declared {len,1} x {stream,path} x MAC check {on,off} for one component; ('dev', vector) = every "
         "vector with <= d non-default coordinates (d = 3 quick, 4 thorough) over 17 dimensions (comment map, component count 0..3, per-slot tag "
-        "layout / payload length / zero run / declared length, session key, sink, MAC checking). Each case writes a real "
+        "layout / payload length / zero run / declared length, session key, sink, MAC checking). ('hist', ops) = every operation sequence of length <= 4 (5 thorough) on ONE live Bf3File over {write with 2 keys, replace payload, append / remove component, change comments, add tag, shorten declared length} with >= 2 writes. Each case writes a real "
         "Bf3File, reads the text back through the same kind of sink and compares comments, tag descriptions, blobs, "
         "declared lengths, flags, and write(read(write(x))) == write(x). Distinct = distinct case vectors; non-trivial = "
         "the writer accepted the file and the reader was run on its output.")
@@ -78,6 +78,64 @@ def cases(ctx):
             yield ("core", ln, z, "len", "stream", False)
     for v in deviations(DIMS, 3 if ctx.quick else 4):
         yield ("dev",) + v
+    # histories on ONE live Bf3File object: every write must reflect the object's CURRENT content
+    from itertools import product as _product
+    depth = 4 if ctx.quick else 5
+    for n in range(2, depth + 1):
+        for seq in _product(range(len(HIST_OPS)), repeat=n):
+            if HIST_OPS[seq[-1]][0] == "write" and any(HIST_OPS[x][0] == "write" for x in seq[:-1]):
+                yield ("hist",) + seq
+
+
+HIST_OPS = [("write", 0), ("write", 1), ("payload",), ("append",), ("pop",), ("comment",), ("tag",), ("declared",)]
+
+
+def run_history(ctx, seq):
+    """One live Bf3File; after every write the text is read back and compared with the object's current content."""
+    o = Outcome("roundtrip-ok", True)
+    keys = [None, ctx.sym("c01-hk")]
+    f = Bf3File({"FirmwareId": "1053"}, [shapes.mk_component({"tags": TAGS[1], "content": shapes.payload(ctx, "c01-h0", 21, 1), "declared": 21, "enc": False})])
+    counter = 0
+    for step, oi in enumerate(seq):
+        op = HIST_OPS[oi]
+        counter += 1
+        if op[0] == "payload":
+            if f.components:
+                c = f.components[0]
+                c.blob = shapes.payload(ctx, "c01-h%d" % counter, 17 + counter, counter % 3)
+                c.actual_len = len(c.blob)
+        elif op[0] == "append":
+            f.components.append(shapes.mk_component({"tags": TAGS[4], "content": shapes.payload(ctx, "c01-ha%d" % counter, 33, 0), "declared": 30, "enc": False}))
+        elif op[0] == "pop":
+            if f.components:
+                f.components.pop(0)
+        elif op[0] == "comment":
+            f.comments["Step%d" % counter] = "v%d" % counter
+            f.comments["FirmwareId"] = str(1053 + counter)
+        elif op[0] == "tag":
+            if f.components:
+                f.components[-1].description[0x20 + counter] = bytes([counter])
+        elif op[0] == "declared":
+            if f.components:
+                f.components[0].actual_len = max(1, f.components[0].actual_len - 1)
+        else:
+            key = keys[op[1]]
+            kargs = () if key is None else (key,)
+            want_comments = dict(f.comments)
+            want = [shapes.view_component(c) for c in f.components]
+            s = io.StringIO()
+            f.write_file(s, *kargs)
+            try:
+                g = Bf3File.read_file(io.StringIO(s.getvalue()), True, *kargs)
+            except Exception as e:
+                o.cls = "reader-rejects"
+                return o.viol("history|rejects-own-output|%s" % type(e).__name__, "after operations %r the reader rejects the writer's output: %r" % (
+                    [HIST_OPS[x] for x in seq[:step + 1]], e))
+            if g.comments != want_comments or [shapes.view_component(c) for c in g.components] != want:
+                o.cls = "diff"
+                return o.viol("history|stale-content", "after operations %r the file read back is not the object's current content" % (
+                    [HIST_OPS[x] for x in seq[:step + 1]],))
+    return o
 
 
 def model_of(ctx, case):
@@ -99,6 +157,8 @@ def model_of(ctx, case):
 
 
 def run_case(ctx, case):
+    if case[0] == "hist":
+        return run_history(ctx, case[1:])
     comments, comps, key, sink, check_cmac, over = model_of(ctx, case)
     f = shapes.mk_bf3(comments, comps)
     kargs = () if key is None else (key,)
